@@ -195,17 +195,23 @@ def _chunk_modifies(o):
 
 
 def _chunks_are(lst, upto, kind, start, end, B, order, fresh_from=None):
-    """chunk number k of lst (k < upto) is the order(k)-th buffer-sized piece of residues start..end"""
+    """chunk number k of lst (k < upto) is the order(k)-th buffer-sized piece of residues start..end.
+    Two quantified facts: the shape (linear: kind, size range, freshness) and the exact position
+    (products with the buffer size), so that users of the first never meet non-linear terms."""
     total = end - start + 1
 
-    def one(k):
+    def shape(k):
+        c = lst[k]
+        # never empty, never more than the buffer (C13); a new object
+        return z3.And(c.g_kind == kind, c.g_n >= 1, c.g_n <= B, c.z >= fresh_from)
+
+    def position(k):
         c = lst[k]
         j = order(k)
-        return z3.And(c.g_kind == kind, c.g_first == start - 1 + j * B, c.g_n == chunk_len(total, B, j),
-                      c.g_n >= 1, c.g_n <= B,  # never empty, never more than the buffer (C13)
-                      c.z >= fresh_from)
+        return z3.And(c.g_first == start - 1 + j * B, c.g_n == chunk_len(total, B, j))
 
-    return forall(lambda k: z3.Implies(z3.And(0 <= k, k < upto), one(k)))
+    rng = lambda k: z3.And(0 <= k, k < upto)
+    return z3.And(forall(lambda k: z3.Implies(rng(k), shape(k))), forall(lambda k: z3.Implies(rng(k), position(k))))
 
 
 @contract(f"{IX}.fwd_chunks", properties=("C03", "C13"))
@@ -214,6 +220,7 @@ class _:
     # and together the chunks are exactly residues start..end in order
     params = {"self": TRef("FastaIndex"), "info": INFO, "start": INT, "end": INT}
     result = TList(BIO)
+    result_zero_based = True
     requires = staticmethod(_chunk_requires)
     modifies = staticmethod(_chunk_modifies)
 
@@ -223,6 +230,7 @@ class _:
         q, r = smt.define_divmod(o.end - o.start, B)
         return [
             ("count", res.len == q + 1),
+            ("zero-based", res.lo == 0),
             ("chunks", _chunks_are(res, res.len, 0, o.start, o.end, B, lambda k: k, o.alloc)),
             ("fresh", res.z >= o.alloc),
         ]
@@ -245,6 +253,7 @@ class _:
     # the same pieces last-first, each reverse-complemented: the reverse complement of the interval
     params = {"self": TRef("FastaIndex"), "info": INFO, "start": INT, "end": INT}
     result = TList(BIO)
+    result_zero_based = True
     requires = staticmethod(_chunk_requires)
     modifies = staticmethod(_chunk_modifies)
 
@@ -254,6 +263,7 @@ class _:
         q, r = smt.define_divmod(o.end - o.start, B)
         return [
             ("count", res.len == q + 1),
+            ("zero-based", res.lo == 0),
             ("chunks", _chunks_are(res, res.len, 2, o.start, o.end, B, lambda k: q - k, o.alloc)),
             ("fresh", res.z >= o.alloc),
         ]
@@ -271,11 +281,20 @@ class _:
     }
 
 
+def _gap_chunks(lst, upto, L, B, fresh_from):
+    rng = lambda k: z3.And(0 <= k, k < upto)
+    return z3.And(
+        forall(lambda k: z3.Implies(rng(k), z3.And(lst[k].g_kind == 1, lst[k].g_n >= 0, lst[k].g_n <= B, lst[k].g_pos == 0, lst[k].z >= fresh_from))),
+        forall(lambda k: z3.Implies(rng(k), lst[k].g_n == chunk_len(L, B, k))),
+    )
+
+
 @contract(f"{IX}.get_gap_iter", properties=("C03", "C13"))
 class _:
     # "every gap rendered as that many N characters", in pieces of at most buffer_size
     params = {"self": TRef("FastaIndex"), "gap": GAP, "gap_character": BYTES}
     result = TList(BIO)
+    result_zero_based = True
 
     @staticmethod
     def requires(o):
@@ -291,8 +310,8 @@ class _:
         q, r = smt.define_divmod(L, B)
         return [
             ("count", res.len == q + 1),
-            ("chunks", forall(lambda k: z3.Implies(z3.And(0 <= k, k < res.len),
-                                                   z3.And(res[k].g_kind == 1, res[k].g_n == chunk_len(L, B, k), res[k].g_n >= 0, res[k].g_n <= B, res[k].g_pos == 0, res[k].z >= o.alloc)))),
+            ("zero-based", res.lo == 0),
+            ("chunks", _gap_chunks(res, res.len, L, B, o.alloc)),
             ("fresh", res.z >= o.alloc),
         ]
 
@@ -302,9 +321,7 @@ class _:
             inv=lambda v, e, o: (lambda B, L, q: [
                 ("counter", z3.And(0 <= v._it0, v._it0 <= q + 1, v.chunk_count == q + 1, v.max_length == B, v.length == L)),
                 ("yielded", z3.And(v._yields.len == v._it0, v._yields.same(e._yields))),
-                ("chunks", forall(lambda k: z3.Implies(z3.And(0 <= k, k < v._it0),
-                                                       z3.And(v._yields[k].g_kind == 1, v._yields[k].g_n == chunk_len(L, B, k), v._yields[k].g_n >= 0,
-                                                              v._yields[k].g_n <= B, v._yields[k].g_pos == 0, v._yields[k].z >= o.alloc)))),
+                ("chunks", _gap_chunks(v._yields, v._it0, L, B, o.alloc)),
                 ("old-refs", forall(lambda k: z3.Implies(z3.And(0 <= k, k < v._it0), v._yields[k].z < v.alloc))),
             ])(o.self.buffer_size, o.gap.length, smt.define_divmod(o.gap.length, o.self.buffer_size)[0]),
         )
@@ -388,6 +405,7 @@ class _:
     # "reverse-complemented for minus-strand rows"
     params = {"self": TRef("FastaIndex"), "frag": FRAG}
     result = TList(BIO)
+    result_zero_based = True
 
     @staticmethod
     def requires(o):
@@ -403,6 +421,7 @@ class _:
         q, r = smt.define_divmod(f.end - f.start, B)
         return [
             ("count", res.len == q + 1),
+            ("zero-based", res.lo == 0),
             # one quantified fact (no case split around the quantifier): kind 2 / last-first for the minus strand
             ("chunks", _chunks_are(res, res.len, z3.If(f.strand == -1, 2, 0), f.start, f.end, B,
                                    lambda k: z3.If(f.strand == -1, q - k, k), o.alloc)),
@@ -416,6 +435,28 @@ ST = "tola.fasta.stream.FastaStream"
 def rows_streamable(idx, rows):
     return forall(lambda k: z3.Implies(z3.And(0 <= k, k < rows.len),
                                        z3.If(rows[k].is_gap, rows[k].length >= 0, row_readable(idx, rows[k]))))
+
+
+def _row_q(v):
+    """number of full buffers before the last chunk of the current row: for a gap of length T, T // B; for a
+    fragment, (end - start) // B - the same witnesses the chunk contracts use"""
+    B = v.fai.buffer_size
+    return smt.define_divmod(v.row.length, B)[0], smt.define_divmod(v.row.end - v.row.start, B)[0]
+
+
+def _total_hints(T, B, k, qg, qf):
+    out = []
+    for q, last in ((qg, T), (qf, T - 1)):
+        # k <= q and B*q <= last  ==>  k*B <= last
+        out.append(z3.Implies(z3.And(0 <= k, k <= q, B >= 1, last >= B * q), k * B <= last))
+    # first-to-last: Min(kB, T) + Min(B, T - kB) == Min((k+1)B, T)   when kB <= T
+    out.append(z3.Implies(z3.And(0 <= k, k * B <= T, B >= 1), smt.Min(k * B, T) + smt.Min(B, T - k * B) == smt.Min((k + 1) * B, T)))
+    # last-first: with j = qf - k the piece delivered next
+    j = qf - k
+    out.append(z3.Implies(z3.And(0 <= j, j * B <= T, B >= 1),
+                          smt.Min((qf + 1 - k) * B, T) - smt.Min((qf + 1 - (k + 1)) * B, T) == smt.Min(B, T - j * B)))
+    out.append(z3.Implies(z3.And(0 <= j, j <= qf, B >= 1, T - 1 >= B * qf), j * B <= T - 1))
+    return out
 
 
 def _ws_common(v):
@@ -465,20 +506,17 @@ class _:
         ),
         1: LoopSpec(  # chunks of one row
             kind="for",
-            inv=lambda v, e, o: (lambda out, L, B, rlen: [
+            inv=lambda v, e, o: (lambda out, L, B, T, qg, qf, k, rev: [
                 ("want", z3.And(1 <= v.want, v.want <= L, v.want == L - out.g_col, L == o.self.line_length, out.g_L == L)),
                 # residues of this row delivered by the first k chunks: chunks come first-to-last, except for a
                 # minus-strand fragment whose pieces come last-first
-                ("total", out.g_total == e.out.g_total + z3.If(
-                    z3.And(v.row.is_frag, v.row.strand == -1),
-                    rlen - smt.Min((v.itr.len - v._it1) * B, rlen),
-                    smt.Min(v._it1 * B, rlen))),
-                ("counter", z3.And(0 <= v._it1, v._it1 <= v.itr.len)),
+                ("total", out.g_total == e.out.g_total + z3.If(rev, T - smt.Min((qf + 1 - k) * B, T), smt.Min(k * B, T))),
+                ("counter", z3.And(0 <= k, k <= v.itr.len, v.itr.len == z3.If(v.row.is_gap, qg, qf) + 1, B >= 1)),
+                ("chunk-objects-are-new", forall(lambda j: z3.Implies(z3.And(0 <= j, j < v.itr.len), v.itr[j].z >= z3.Int("alloc@0")))),
                 ("same", z3.And(v.out.z == o.self.out.z, v.fai.z == o.self.index.z, v.itr.same(e.itr))),
-            ])(v.out, v.line_length, o.self.index.buffer_size, v.row.length),
-            # lemma instance: multiplication by the (positive) buffer size is monotone
-            hints=lambda v: [mul_mono(v._it1, v.itr.len - 1, v.fai.buffer_size),
-                             mul_mono(v.itr.len - 1 - v._it1, v.itr.len - 1, v.fai.buffer_size)],
+            ])(v.out, v.line_length, v.fai.buffer_size, v.row.length, *_row_q(v), v._it1, z3.And(v.row.is_frag, v.row.strand == -1)),
+            # lemma instances about the closed form of the running total (each proved on its own, then used)
+            hints=lambda v: {"total": _total_hints(v.row.length, v.fai.buffer_size, v._it1, *_row_q(v))},
             frame=lambda v, e: {"$fresh-only": ["H.BytesIO.g_pos"]},
         ),
         2: LoopSpec(  # pieces of one chunk
@@ -490,10 +528,49 @@ class _:
                 ("consumed", z3.And(0 <= c.g_pos, c.g_pos <= c.g_n, out.g_total == e.out.g_total + c.g_pos)),
                 ("chunk", z3.And(c.g_n == e.chunk.g_n, c.g_kind == e.chunk.g_kind, v.chunk.z == e.chunk.z)),
                 # what the chunk contracts say about this chunk, carried along (no quantifier needed afterwards)
-                ("chunk-facts", z3.And(z3.Or(c.g_kind == 0, c.g_kind == 1, c.g_kind == 2), c.g_n >= 0)),
+                ("chunk-facts", z3.And(z3.Or(c.g_kind == 0, c.g_kind == 1, c.g_kind == 2), c.g_n >= 0, c.z >= z3.Int("alloc@0"))),
                 ("same", v.out.z == o.self.out.z),
             ])(v.out, v.line_length, v.chunk),
             variant=lambda v: v.chunk.g_n - v.chunk.g_pos,
             frame=lambda v, e: {"$fresh-only": ["H.BytesIO.g_pos"]},
         ),
+    }
+
+
+@contract(f"{ST}.write_assembly", properties=("C03",))
+class _:
+    # "the record set and order equal the scaffold set and order": one write_scaffold per scaffold, in order
+    params = {"self": TRef("FastaStream"), "assembly": TRef("Assembly")}
+    result = NONE
+
+    @staticmethod
+    def requires(o):
+        s = o.self
+        scs = o.assembly.scaffolds
+        return [
+            ("line-length", z3.And(s.line_length >= 1, s.out.g_L == s.line_length, s.out.g_col == 0)),
+            ("buffer", s.index.buffer_size >= 1),
+            ("filler", z3.And(s.gap_character[0] == 1, s.gap_character[2] == 1)),
+            ("rows-within-index", forall(lambda j: z3.Implies(z3.And(0 <= j, j < scs.len), rows_streamable(s.index, scs[j].rows)))),
+        ]
+
+    @staticmethod
+    def modifies(o):
+        fh = o.self.index.fasta_fileandle
+        return ([("field", "BinOut", "g_col", o.self.out), ("field", "BinOut", "g_total", o.self.out)]
+                + [("field", "FastaFH", f, fh) for f in ("pos", "g_info", "g_next")]
+                + [("fresh-objs", "BytesIO", ["g_kind", "g_first", "g_n", "g_pos"]), ("fresh-lists", BIO), ("alloc",)])
+
+    @staticmethod
+    def ensures(o, n, res):
+        return [("complete-last-line", n.self.out.g_col == 0)]
+
+    loops = {
+        0: LoopSpec(
+            kind="for",
+            iter_src="assembly.scaffolds",
+            inv=lambda v, e, o: [("col", v.self.out.g_col == 0), ("same", z3.And(v.self.z == o.self.z, v.assembly.z == o.assembly.z))],
+            # one record per scaffold, in scaffold order, as long as the scaffold
+            iter_post=lambda v, b, e: [("record-of-this-scaffold", v.self.out.g_total == b.scffld.rows.cum(b.scffld.rows.len))],
+        )
     }
